@@ -205,12 +205,25 @@ def finish(log, before, after, status, body, rk, pk, resp_ok):
                                     ("changed:" + "+".join(map(str, bad))) if bad else "ok")
 
 
-def run_wsgi(tree, root, path, host, pats):
+def run_wsgi(tree, root, path, host, pats, warm=None):
     log = []
     try:
         app = build(tree, pats, "W", log)
     except AssertionError:
         return "config AssertionError"
+    for wroot, wpath in (warm or []):
+        # an earlier request on the SAME application object (its answer is not looked at)
+        wenv = {"REQUEST_METHOD": "GET", "QUERY_STRING": "", "SERVER_NAME": "srv", "SERVER_PORT": "80",
+                "SERVER_PROTOCOL": "HTTP/1.1", "wsgi.version": (1, 0), "wsgi.url_scheme": "http", "PATH_INFO": wpath,
+                "SCRIPT_NAME": wroot}
+        if host is not None:
+            wenv["HTTP_HOST"] = host
+        try:
+            wit = app(wenv, lambda status, headers, exc_info=None: None)
+            b"".join(wit)
+        except Exception:  # noqa
+            pass
+        del log[:]
     environ = {
         "REQUEST_METHOD": "GET", "QUERY_STRING": "q=1", "SERVER_NAME": "srv", "SERVER_PORT": "80",
         "SERVER_PROTOCOL": "HTTP/1.1", "wsgi.version": (1, 0), "wsgi.url_scheme": "http",
@@ -241,12 +254,28 @@ def run_wsgi(tree, root, path, host, pats):
     return finish(log, before, environ, status, body, "SCRIPT_NAME", "PATH_INFO", resp_ok)
 
 
-def run_asgi(tree, root, path, host, pats):
+def run_asgi(tree, root, path, host, pats, warm=None):
     log = []
     try:
         app = build(tree, pats, "A", log)
     except AssertionError:
         return "config AssertionError"
+    for wroot, wpath in (warm or []):
+        wscope = {"type": "http", "asgi": {"version": "3.0"}, "http_version": "1.1", "method": "GET", "scheme": "http",
+                  "path": wpath, "root_path": wroot, "query_string": b"",
+                  "headers": [(b"host", host.encode("latin-1"))] if host is not None else [], "server": ("srv", 80)}
+
+        async def wreceive():
+            return {"type": "http.request", "body": b"", "more_body": False}
+
+        async def wsend(message):
+            pass
+
+        try:
+            asyncio.run(app(wscope, wreceive, wsend))
+        except Exception:  # noqa
+            pass
+        del log[:]
     headers = [(b"accept", b"*/*")]
     if host is not None:
         headers.append((b"host", host.encode("latin-1")))
@@ -287,7 +316,11 @@ def impl(line):
     outs = []
     for runner in (run_wsgi, run_asgi):
         try:
-            outs.append(runner(tree, root, path, host, pats))
+            fresh = runner(tree, root, path, host, pats)
+            # the same request again on an application object that has already answered the same path under
+            # ANOTHER mount point (and the same one): the answer is a function of the request alone
+            warmed = runner(tree, root, path, host, pats, warm=[("/zz" + (root or ""), path), (root or "", path)])
+            outs.append(fresh if fresh == warmed else "HISTORY fresh [%s] after-earlier-requests [%s]" % (fresh, warmed))
         except Exception as exc:  # noqa
             outs.append("crash %s" % type(exc).__name__)
     if outs[0] == outs[1] == "config AssertionError":
@@ -345,6 +378,9 @@ def oracle(line, out):
         return None  # the property speaks about tables that can be constructed
     if out == "config AssertionError":
         return "an admissible table was refused"
+    if "HISTORY" in out:
+        return ("the same request is answered differently by an application object that answered the same path "
+                "under another mount point before: %s" % out[:300])
     m = re.fullmatch(r"W (.*) \| A (.*)", out)
     if not m:
         return "unreadable outcome %r" % out
